@@ -322,6 +322,43 @@ def gen_query(rng, cfg, depth=2, simple=False):
     return q
 
 
+def gen_shaped_query(rng, cfg):
+    """Query shapes in which composite matchers sit under other composites
+    (negation over an intersection, optional over union, ...): the shapes
+    where cursor re-synchronisation and bound propagation go wrong."""
+    tfields = [f for f in cfg.fields if f in ("t", "tc", "tb", "tv")]
+
+    def t():
+        return ["term", rng.choice(tfields), rng.choice(cfg.vocab)]
+
+    def conj():
+        return ["and", [t(), t()]]
+
+    def disj():
+        return ["or", [t() for _ in range(rng.choice((2, 3)))]]
+    shapes = [
+        lambda: ["andnot", conj(), t()],
+        lambda: ["andnot", disj(), t()],
+        lambda: ["andnot", conj(), disj()],
+        lambda: ["and", [conj(), ["not", t()]]],
+        lambda: ["or", [["andnot", t(), t()], t()]],
+        lambda: ["andmaybe", conj(), t()],
+        lambda: ["andmaybe", t(), conj()],
+        lambda: ["andmaybe", disj(), disj()],
+        lambda: ["require", disj(), t()],
+        lambda: ["require", conj(), disj()],
+        lambda: ["dismax", [conj(), t()], 0.0],
+        lambda: ["dismax", [disj(), conj()], 0.0],
+        lambda: ["and", [disj(), disj()]],
+        lambda: ["and", [t(), t(), t()]],
+        lambda: ["or", [conj(), conj()]],
+        lambda: ["andnot", ["andmaybe", t(), t()], t()],
+        lambda: ["and", [["phrase", rng.choice([f for f in tfields if f in ("t", "tc", "tv")] or ["t"]),
+                          [rng.choice(cfg.vocab), rng.choice(cfg.vocab)], rng.choice((1, 2))], t()]],
+    ]
+    return rng.choice(shapes)()
+
+
 def contains(spec, kinds):
     if spec[0] in kinds:
         return True
